@@ -74,6 +74,7 @@ const (
 	cOverLimitRefused
 	cDuplexAfterCtxEnd
 	cUndecodablePassedOn
+	cDensePartition
 	numCounters
 )
 
@@ -106,11 +107,12 @@ var counterNames = [...]string{
 	cWSCutNoClose: "reach.ws_cut_without_close", cTrailerChecked: "reach.final_status_checked", cBase64Tail: "reach.base64_tail_nonzero",
 	cChunkBoundary: "reach.httpbody_chunk_boundary", cDirectCompare: "reach.direct_backend_comparison",
 	cStarOverlap: "reach.kind_star_overlap_unpredicted", cProbeSkipped: "reach.probe_not_judged_after_unpredicted_verdict",
-	cReferenceCompared: "reach.final_state_compared_with_fresh_registration",
+	cReferenceCompared:    "reach.final_state_compared_with_fresh_registration",
 	cDeadlinePassedStatus: "reach.final_status_after_deadline_passed_mid_call",
-	cOverLimitRefused: "reach.inflated_message_over_limit_refused_whole",
-	cDuplexAfterCtxEnd: "reach.two_goroutine_handler_both_called_after_context_end",
-	cUndecodablePassedOn: "reach.undecodable_message_error_returned_as_is",
+	cOverLimitRefused:     "reach.inflated_message_over_limit_refused_whole",
+	cDuplexAfterCtxEnd:    "reach.two_goroutine_handler_both_called_after_context_end",
+	cUndecodablePassedOn:  "reach.undecodable_message_error_returned_as_is",
+	cDensePartition:       "reach.short_stream_partition_taken_from_run_index",
 }
 
 func counterName(i int) string {
